@@ -303,7 +303,7 @@ let err_class = function
 let mask_func (f : M.func) : M.func =
   let nm = string_of_bytes f.M.fName in
   let last = match String.rindex_opt nm '.' with Some i -> String.sub nm (i + 1) (String.length nm - i - 1) | None -> nm in
-  if String.length last > 0 && Char.code last.[0] >= 128 && not f.M.isPkgMain then { f with M.isExported = false } else f
+  if String.length last > 0 && Char.code last.[0] >= 196 && not f.M.isPkgMain then { f with M.isExported = false } else f
 let mask_call (c : M.call) = { c with M.cFunc = mask_func c.M.cFunc }
 let mask_stack (s : M.stack) = { s with M.calls = List.map mask_call s.M.calls }
 let mask_goroutine (g : M.goroutine) =
@@ -608,6 +608,117 @@ let op_chunk r = function
     if same <> "1" then (flag r "prop:C09:chunking-dependent"; r.detail <- diff)
   | _ -> failwith "chunk: fields"
 
+(* ---------- op: pp (C16, C02 end to end) ---------- *)
+(* remove CSI sequences ESC [ ... final-byte(0x40..0x7e) *)
+let strip_esc (s : string) : string =
+  let b = Buffer.create (String.length s) in
+  let n = String.length s in
+  let i = ref 0 in
+  while !i < n do
+    if s.[!i] = '\027' && !i + 1 < n && s.[!i + 1] = '[' then begin
+      i := !i + 2;
+      while !i < n && not (Char.code s.[!i] >= 0x40 && Char.code s.[!i] <= 0x7e) do incr i done;
+      incr i
+    end else (Buffer.add_char b s.[!i]; incr i)
+  done;
+  Buffer.contents b
+
+(* the blocks of a console rendering of ONE dump: a header line (not starting with 4 spaces)
+   followed by its call lines (starting with 4 spaces) *)
+let blocks_of (s : string) : string list =
+  let ls, tl = split_lines s in
+  let ls = if tl = "" then ls else ls @ [tl] in
+  let out = ref [] and cur = ref None in
+  List.iter (fun l ->
+    if is_prefix "    " l then (match !cur with Some c -> cur := Some (c ^ l) | None -> out := l :: !out)
+    else begin
+      (match !cur with Some c -> out := c :: !out | None -> ());
+      cur := Some l
+    end) ls;
+  (match !cur with Some c -> out := c :: !out | None -> ());
+  List.rev !out
+
+let rec is_interleaving (a : string list) (b : string list) (c : string list) : bool =
+  match c with
+  | [] -> a = [] && b = []
+  | x :: c' ->
+    (match a with y :: a' when y = x && is_interleaving a' b c' -> true | _ ->
+      (match b with y :: b' when y = x -> is_interleaving a b' c' | _ -> false))
+
+let rune_count_s (s : string) = int_of_nat (M.rune_count (bytes_of_string s))
+
+let op_pp r = function
+  | [content; level; pf; lit; banner; palette; plain; pe; color; ce; filt; fe; mat; me; ngor] ->
+    let lvl = level_of level in
+    let pfm = if pf = "full" then M.FullPath else M.BasePath in
+    let pal = List.map bytes_of_hex (String.split_on_char ',' palette) in
+    let litb = bytes_of_hex lit in
+    let plain_s = unhex plain and color_s = unhex color in
+    tag r ("pf=" ^ pf); tag r ("level=" ^ level); if litb <> [] then tag r "filter";
+    let mk p f m = { M.o_level = lvl; o_pf = pfm; o_pal = p; o_filter = f; o_match = m; o_banner = (banner = "1") } in
+    let run o exp_out exp_code what =
+      (match M.pp_run o (bytes_of_hex content) with
+       | M.Panic _ -> flag r "model:panic"; flag r ("corr:pp:" ^ what)
+       | M.Ok (out, ok) ->
+         if string_of_bytes out <> exp_out then begin
+           flag r ("corr:pp:" ^ what);
+           let m = string_of_bytes out in
+           let i = ref 0 in
+           while !i < String.length m && !i < String.length exp_out && m.[!i] = exp_out.[!i] do incr i done;
+           let ctx s = String.escaped (String.sub s (max 0 (!i - 30)) (min 70 (String.length s - max 0 (!i - 30)))) in
+           r.detail <- Printf.sprintf "first difference at %d: model [%s] impl [%s]" !i (ctx m) (ctx exp_out)
+         end
+         else if (ok && exp_code <> "0") || (not ok && exp_code = "0") then flag r ("corr:pp-exit:" ^ what)) in
+    run (mk [] None None) plain_s pe "plain";
+    run (mk pal None None) color_s ce "color";
+    let pred = Some (fun h -> M.contains h litb) in
+    if litb <> [] then begin
+      run (mk [] pred None) (unhex filt) fe "filter";
+      run (mk [] None pred) (unhex mat) me "match"
+    end;
+    if pe <> "0" && pe <> "1" then flag r "impl:panic";
+    (* ---- C16 oracles on the implementation's output alone ---- *)
+    if strip_esc color_s <> plain_s then flag r "prop:C16:colour-changes-text";
+    if ngor <> "-" then begin
+      (* the input is exactly one dump: the whole output is blocks (after the optional banner) *)
+      let body s = let bn = string_of_bytes M.banner in if is_prefix bn s then String.sub s (String.length bn) (String.length s - String.length bn) else s in
+      let bl = blocks_of (body plain_s) in
+      tag r (Printf.sprintf "blocks=%d" (min 9 (List.length bl)));
+      if litb <> [] then begin
+        let bf = blocks_of (body (unhex filt)) and bm = blocks_of (body (unhex mat)) in
+        if not (is_interleaving bf bm bl) then flag r "prop:C16:filter-match-not-a-split";
+        if bf <> [] && bm <> [] then tag r "split"
+      end;
+      (* every goroutine accounted for: bucket counts add up (non-race), or one block per goroutine (race) *)
+      let heads = List.map (fun b -> match String.index_opt b ':' with Some i -> String.sub b 0 i | None -> "") bl in
+      let is_race = is_prefix "==================" (unhex content) in
+      (try
+        if is_race then (if List.length bl <> int_of_string ngor then flag r "prop:C16:goroutine-missing")
+        else if List.fold_left (fun a h -> a + int_of_string h) 0 heads <> int_of_string ngor then flag r "prop:C16:counts-do-not-add-up"
+      with Failure _ -> flag r "prop:C16:header-shape");
+      (* alignment: in the coloured output the package and file fields of all call lines have equal rune widths *)
+      let cl, ctl = split_lines (body color_s) in
+      let widths = List.filter_map (fun l ->
+        if is_prefix "    \027" l then begin
+          (* segments between escape sequences *)
+          let segs = ref [] and cur = Buffer.create 32 in
+          let n = String.length l and i = ref 0 in
+          while !i < n do
+            if l.[!i] = '\027' && !i + 1 < n && l.[!i+1] = '[' then begin
+              if Buffer.length cur > 0 then (segs := Buffer.contents cur :: !segs; Buffer.clear cur);
+              i := !i + 2; while !i < n && not (Char.code l.[!i] >= 0x40 && Char.code l.[!i] <= 0x7e) do incr i done; incr i
+            end else (Buffer.add_char cur l.[!i]; incr i)
+          done;
+          (match List.rev !segs with
+           | _ :: pkg :: src :: _ -> Some (rune_count_s pkg, rune_count_s src)
+           | _ -> None)
+        end else None) (cl @ [ctl]) in
+      (match widths with
+       | [] -> ()
+       | w :: ws -> if List.exists (fun x -> x <> w) ws then flag r "prop:C16:columns-not-aligned" else tag r "aligned")
+    end
+  | _ -> failwith "pp: fields"
+
 (* ---------- main loop ---------- *)
 let () =
   let ops : (string, res -> string list -> unit) Hashtbl.t = Hashtbl.create 16 in
@@ -617,6 +728,7 @@ let () =
   Hashtbl.replace ops "scanseq" op_scanseq;
   Hashtbl.replace ops "cut" op_cut;
   Hashtbl.replace ops "names" op_names;
+  Hashtbl.replace ops "pp" op_pp;
   Hashtbl.replace ops "chunk" op_chunk;
   (try
     while true do
